@@ -186,9 +186,9 @@ def jobs(tier, seed):
     js = []
     rng = random.Random(1000 + int(seed))
     if tier == 'quick':
-        max_occ, nrand, sortss = 7, 14, ['int', 'real', 'mixed']
+        max_occ, nrand, sortss = 8, 45, ['int', 'real', 'mixed']
     else:
-        max_occ, nrand, sortss = 9, 60, ['int', 'real', 'mixed']
+        max_occ, nrand, sortss = 9, 160, ['int', 'real', 'mixed']
     shapes = list(CORE_SHAPES)
     for _ in range(nrand):
         shapes.append(gen_programs(rng, 3, max_occ, ['T', 'T', 'T', 'S', 'I', 'E', 'W', 'J']))
@@ -213,9 +213,9 @@ META = {
                         'c01.neg-refused-only-if-negative', 'c01.until-now'],
     'required_covers': ['nontrivial', 'interrupt-delivered', 'until-stop', 'neg-refused'],
     'bounds': {
-        'quick': 'program shapes: 9 core + 14 seeded random, <= 3 processes, <= 7 agenda occurrences per program; '
+        'quick': 'program shapes: 11 core + 45 seeded random, <= 3 processes, <= 5 timeouts (<= 8 instructions) per program; '
                  'delays unbounded (>= 0) Int / Real / mixed; until-stop at the concrete instant 2',
-        'thorough': 'program shapes: 9 core + 60 seeded random, <= 3 processes, <= 9 occurrences; delays unbounded',
+        'thorough': 'program shapes: 11 core + 160 seeded random, <= 3 processes, <= 6 timeouts; delays unbounded',
     },
     'assumptions': ['interrupt causes and event values are concrete tags',
                     'run(until=<number>) instants are concrete (Environment.run calls float())'],
